@@ -169,6 +169,68 @@ theorem only_valid_dialled_dilation (d d' : Dil) (kvs : List (String × J)) (hin
       cases h
       exact ⟨[], by simp, by simp⟩
 
+/-! ## a dead but well-typed hint never decides the race
+
+`_start_connector` chains nothing but `startNegotiation` onto the attempt (pinned by `guards_agree`),
+so a contender succeeds only with a negotiated connection; `raceOutcome` is `connect()` over the
+attempts in the order they were started (compared with the real `connect()` on every transit case,
+where the harness refuses / times out / breaks the handshake of some attempts). -/
+
+/-- `connect()` fires with a connection only for an attempt that really connected and negotiated:
+    refused, unreachable, timed-out or handshake-failing hints never make it fire -/
+theorem dead_hint_never_wins (listener : Bool) (fates : List Fate) (i : Nat)
+    (h : raceOutcome listener fates = .connection i) : fates[i]? = some .connected := by
+  have key : ∀ (fs : List Fate) (k j : Nat), firstWinner k fs = some j → k ≤ j ∧ fs[j - k]? = some .connected := by
+    intro fs
+    induction fs with
+    | nil => intro k j hj; simp [firstWinner] at hj
+    | cons f rest ih =>
+      intro k j hj
+      unfold firstWinner at hj
+      split at hj
+      · cases hj
+        refine ⟨Nat.le_refl _, ?_⟩
+        cases f <;> simp_all [contender]
+      · obtain ⟨hle, hget⟩ := ih (k + 1) j hj
+        refine ⟨by omega, ?_⟩
+        have : j - k = (j - (k + 1)) + 1 := by omega
+        rw [this]
+        simpa using hget
+  unfold raceOutcome at h
+  cases hw : firstWinner 0 fates with
+  | none => simp [hw] at h; split at h <;> cases h
+  | some j =>
+    simp [hw] at h
+    subst h
+    simpa using (key fates 0 j hw).2
+
+/-- as long as no attempt has connected, a listener or any attempt that is still pending keeps
+    `connect()` pending: failures of the other hints — however many, of whatever kind — do not end it -/
+theorem dead_hints_never_abort (listener : Bool) (fates : List Fate)
+    (hnone : ∀ f ∈ fates, f ≠ .connected)
+    (hlive : listener = true ∨ Fate.pending ∈ fates) : raceOutcome listener fates = .pending := by
+  have key : ∀ (fs : List Fate) (k : Nat), (∀ f ∈ fs, f ≠ .connected) → firstWinner k fs = none := by
+    intro fs
+    induction fs with
+    | nil => intro k _; rfl
+    | cons f rest ih =>
+      intro k hn
+      unfold firstWinner
+      have hf := hn f List.mem_cons_self
+      have : contender f ≠ some true := by cases f <;> simp_all [contender]
+      simp [this, ih (k + 1) (fun g hg => hn g (List.mem_cons_of_mem _ hg))]
+  unfold raceOutcome
+  rw [key fates 0 hnone]
+  rcases hlive with hl | hp
+  · simp [hl]
+  · have : fates.any (fun f => (contender f).isNone) = true := List.any_eq_true.mpr ⟨.pending, hp, rfl⟩
+    simp [this]
+
+/-- non-vacuity: a refused first hint, a hint that breaks the handshake, then one that connects -/
+example : raceOutcome false [.tcpFail, .handshakeFail, .pending] = .pending ∧
+    raceOutcome false [.tcpFail, .handshakeFail, .connected] = .connection 2 ∧
+    raceOutcome false [.tcpFail, .handshakeFail] = .failed := by decide
+
 /-! ## encode_parse_roundtrip -/
 
 /-- for every hint object with string hostname, integer port and numeric priority, the peer's
